@@ -142,7 +142,7 @@ func cmdAsmRandom(args []string) error {
 	var n int
 	fmt.Sscan(args[1], &n)
 	rng := rand.New(rand.NewSource(seed()))
-	syms := []string{"foo", "bar", "ba_r9", "xyzzy", "a", "inky_pinky", "n0", "zz9"}
+	syms := []string{"foo", "bar", "ba_r9", "xyzzy", "a", "inky_pinky", "n0", "zz9", "_catch"}
 	sels := []string{"0", "1", "2", "9", "10", "11", "22", "99", "1234", "a", "ab", "x1", "a1b2", "zz", "*", "00", "007", "1a", "2b3", "010"}
 	pick := func(xs []string) string { return xs[rng.Intn(len(xs))] }
 	for i := 0; i < n; i++ {
